@@ -652,10 +652,74 @@ func genE2EH264(x *Ctx) {
 	}
 }
 
+// ---- AV1
+
+func genE2EAV1(x *Ctx) {
+	frame := func(r *Rand, os []av1Obu) e2eFrame {
+		return e2eFrame{payload: av1Serialise(os), samples: 3000, now: pktzClockValueIn(r), extra: func(t *Toks) { av1WriteObus(t, os) }}
+	}
+	run := func(c *Case, g e2eCfg, pre [][]byte, frames []e2eFrame) {
+		dep := &codecs.AV1Depacketizer{}
+		// the receiver has seen `pre` before (a fragment whose continuation never arrived, garbage)
+		for _, p := range pre {
+			try(func() { _, _ = dep.Unmarshal(append([]byte{}, p...)) })
+		}
+		if len(pre) > 0 {
+			c.Tag("receiver:used")
+		}
+		runE2E(c, g, &codecs.AV1Payloader{}, dep.Unmarshal, func(t *Toks) { t.BytesList(pre) }, frames)
+	}
+	e2eGrid(x, 2, func(c *Case, g e2eCfg, lens []int) {
+		// one OBU that fills k packets exactly / ±1 (1 aggregation header byte + 1 OBU header byte),
+		// with and without size field; then a temporal delimiter + a small frame
+		var fs []e2eFrame
+		n := lens[0] - 2
+		if n < 0 {
+			n = 0
+		}
+		fs = append(fs, frame(c.R, []av1Obu{{typ: 6, hasSize: c.R.Bool(), payload: c.R.Bytes(n)}}))
+		fs = append(fs, frame(c.R, []av1Obu{{typ: 2, hasSize: true}, {typ: 6, hasSize: c.R.Bool(), payload: c.R.Bytes(lens[1])}}))
+		run(c, g, nil, fs)
+	})
+	for i, n := 0, x.N(2500, 100000); i < n; i++ {
+		x.Case(func(c *Case) {
+			r := c.R
+			g := e2eGenCfg(r, 2)
+			b := g.budget()
+			nfr := r.Pick(1, 1, 2, 3, r.Range(1, 4))
+			var fs []e2eFrame
+			for len(fs) < nfr {
+				var os []av1Obu
+				switch r.Intn(10) {
+				case 0:
+					os = []av1Obu{{typ: byte(r.Pick(2, 8)), hasSize: true, payload: r.Bytes(r.Intn(4))}} // dropped whole: no packet
+				case 1:
+					os = av1RandObus(r, b, 5, 300, true) // an inner OBU without size field: outside the hypotheses
+				default:
+					os = av1RandObus(r, b, r.Pick(1, 2, 4, 6), min(4*b+10, 3000), false)
+					if r.Bool() {
+						os = append([]av1Obu{{typ: 2, hasSize: true}}, os...) // temporal delimiter first, as encoders do
+					}
+				}
+				fs = append(fs, frame(r, os))
+			}
+			var pre [][]byte
+			if r.Chance(1, 4) {
+				pre = append(pre, append([]byte{0x50, 0x30}, r.Bytes(r.Range(0, 20))...)) // Y=1, W=1: a fragment left open
+				if r.Chance(1, 3) {
+					pre = append(pre, r.Bytes(r.Range(0, 12)))
+				}
+			}
+			run(c, g, pre, fs)
+		})
+	}
+}
+
 func init() {
 	register("e2e.g711", "C06", genE2EG711)
 	register("e2e.opus", "C06", genE2EOpus)
 	register("e2e.vp8", "C06", genE2EVP8)
 	register("e2e.vp9", "C06", genE2EVP9)
 	register("e2e.h264", "C06", genE2EH264)
+	register("e2e.av1", "C06", genE2EAV1)
 }
